@@ -499,6 +499,10 @@ func c10upload(ev *evid.Rec) func(rt *rapid.T) {
 				seed[strings.Join(it.path, "/")] = -1
 			case 1:
 				seed[strings.Join(it.path, "/")] = rapid.IntRange(0, len(it.data)).Draw(rt, fmt.Sprintf("seedlen%d", i))
+			case 2:
+				if rapid.Bool().Draw(rt, fmt.Sprintf("seedalias%d", i)) {
+					seed[strings.Join(it.path, "/")] = -2 // an alias whose target is gone lies where the file will go: there is no such file yet
+				}
 			}
 		}
 		target := rapid.SampledFrom([]string{"root", "Uploads"}).Draw(rt, "target")
@@ -530,7 +534,9 @@ func c10upload(ev *evid.Rec) func(rt *rapid.T) {
 					key := strings.Join(it.path, "/")
 					if s, ok := seed[key]; ok {
 						must(os.MkdirAll(filepath.Dir(filepath.Join(dst, key)), 0o755))
-						if s < 0 {
+						if s == -2 {
+							must(os.Symlink(filepath.Join(dst, "a target that is gone"), filepath.Join(dst, key)))
+						} else if s < 0 {
 							must(os.WriteFile(filepath.Join(dst, key), it.data, 0o644))
 						} else {
 							must(os.WriteFile(filepath.Join(dst, key)+".incomplete", it.data[:s], 0o644))
@@ -671,7 +677,7 @@ func c10upload(ev *evid.Rec) func(rt *rapid.T) {
 		}
 		ev.Case(evid.Hash("ul", treeHash(kids), fmt.Sprint(seed), cutAt, own), nd && f && (len(seed) > 0 || wasCut), "upload", cl, fmt.Sprintf("own-root:%v", own), fmt.Sprintf("entries:%d", min(len(all)/10*10, 100)), "target:"+target)
 		if nd && f && len(seed) > 0 && ev.WantSample() {
-			ev.Sample(map[string]any{"direction": "upload+roundtrip", "tree": itemNames(all), "preseeded(-1=complete,n=partial bytes)": seed})
+			ev.Sample(map[string]any{"direction": "upload+roundtrip", "tree": itemNames(all), "preseeded(-1=complete,-2=dangling alias,n=partial bytes)": seed})
 		}
 	}
 }
